@@ -256,6 +256,20 @@ def check_parts(W, rec, parts, boundary: str, paths=("events", "encode_multipart
                 b2, data = T.encode_multipart(md, boundary=boundary)
             form, files = FP.MultiPartParser().parse(io.BytesIO(data), b2.encode(), len(data))
             _compare_form_files(rec, case, "encode_multipart", parts, form, files)
+            if len(parts) % 4 == 1:
+                # history + configuration: a client with a fixed boundary sends the same bytes twice, under any request
+                # method; the application handling the first request edits the parameter dict it was handed
+                ctype_ = f'multipart/form-data; boundary="{b2}"'  # (RFC 2046 boundaries may hold characters that are no token characters: quoted)
+                for nth, meth in enumerate(("POST", ("PUT", "PATCH", "DELETE", "OPTIONS", "HEAD", "TRACE", "REPORT")[len(pj) % 8])):
+                    env_ = {"REQUEST_METHOD": meth, "wsgi.input": io.BytesIO(data), "CONTENT_TYPE": ctype_, "CONTENT_LENGTH": str(len(data)), "wsgi.url_scheme": "http",
+                            "SERVER_NAME": "h", "SERVER_PORT": "80", "PATH_INFO": "/", "SCRIPT_NAME": "", "QUERY_STRING": ""}
+                    rq_ = Request(env_)
+                    rec.observe("same_bytes_and_content_type_again")
+                    _compare_form_files(rec, dict(case, path="request_again", method=meth, nth=nth), "request_again", parts, rq_.form, rq_.files)
+                    rq_.mimetype_params.pop("boundary", None)
+                    rq_.mimetype_params["charset"] = "edited"
+                    for f_ in rq_.files.values():
+                        f_.mimetype_params.clear()
     if "builder_multipart" in paths:
         rec.case()
         rec.observe("path:builder_multipart")
@@ -270,9 +284,9 @@ def check_parts(W, rec, parts, boundary: str, paths=("events", "encode_multipart
                 else:
                     data.setdefault(name, []).append(value)
             if not any(p[0] == "file" for p in parts):
-                b = T.EnvironBuilder(method="POST", data=data, content_type="multipart/form-data")
+                b = T.EnvironBuilder(method=("POST", "PUT", "OPTIONS", "HEAD", "TRACE", "PATCH")[len(parts) % 6], data=data, content_type="multipart/form-data")
             else:
-                b = T.EnvironBuilder(method="POST", data=data)
+                b = T.EnvironBuilder(method=("POST", "PUT", "OPTIONS", "HEAD", "TRACE", "PATCH")[len(parts) % 6], data=data)
             try:
                 r = b.get_request(Request)
                 _compare_form_files(rec, case, "builder_multipart", parts, r.form, r.files)
